@@ -1751,6 +1751,104 @@ def scoped_config_unit(rep, wd, tier):
     return len(jobs)
 
 
+LOC_BASE = """#[diplomat::bridge]
+pub mod ffi {
+    pub struct LcPoint { pub x: i32, pub y: i32 }
+    pub enum LcColor { Red, Green }
+    #[diplomat::opaque]
+    pub struct LcEngine(pub u8);
+    #[diplomat::out]
+    pub struct LcAsum { pub n: u32, pub c: LcColor }
+    impl LcEngine {
+        pub fn make(v: u8) -> Box<LcEngine> { Box::new(LcEngine(v)) }
+        pub fn at(&self, p: LcPoint) -> LcColor { let _ = p; LcColor::Red }
+        pub fn sum(&self) -> LcAsum { LcAsum { n: 0, c: LcColor::Red } }
+    }
+    impl LcAsum {
+        #[diplomat::attr(supports = named_constructors, named_constructor)]
+        pub fn empty() -> LcAsum { LcAsum { n: 0, c: LcColor::Green } }
+    }
+%s}
+"""
+# unreferenced additions that themselves USE the existing types (in Option, Result, callbacks, fields), and plain ones that change how
+# many types of each kind sort before the existing ones
+LOC_ADDITIONS = {
+    "opaque-using-options": """    #[diplomat::opaque]
+    pub struct %(n)s(pub u8);
+    impl %(n)s {
+        pub fn pick(&self, c: Option<LcColor>) -> Option<LcPoint> { let _ = c; None }
+        pub fn try_it(&self, p: Option<LcPoint>) -> Result<LcPoint, LcColor> { let _ = p; Err(LcColor::Red) }
+        pub fn opt_eng(&self, e: Option<&LcEngine>) -> Option<Box<LcEngine>> { let _ = e; None }
+    }
+""",
+    "struct-with-option-fields": """    pub struct %(n)s { pub c: DiplomatOption<LcColor>, pub p: DiplomatOption<LcPoint>, pub k: u8 }
+""",
+    "out-struct-holding-them": """    #[diplomat::out]
+    pub struct %(n)s { pub p: LcPoint, pub c: LcColor, pub e: Box<LcEngine>, pub s: LcAsum }
+""",
+    "plain-struct": """    pub struct %(n)s { pub a: u8 }
+""",
+    "two-plain-structs": """    pub struct %(n)s { pub a: u8 }
+    pub struct %(n)sB { pub b: u16 }
+""",
+    "plain-out-struct": """    #[diplomat::out]
+    pub struct %(n)s { pub a: u8 }
+""",
+    "enum": """    pub enum %(n)s { One, Two }
+""",
+    "opaque-with-slices": """    #[diplomat::opaque]
+    pub struct %(n)s(pub u8);
+    impl %(n)s {
+        pub fn bytes(&self, v: &[u8], w: &[u16], s: &str) -> u8 { let _ = (v, w, s); 0 }
+    }
+""",
+}
+
+
+def locality_unit(rep, wd):
+    """adding an unreferenced type - one that may itself use the existing types - leaves every other type's file unchanged"""
+    def one(job):
+        b, tag, text = job
+        d = os.path.join(wd, "loc-%s-%s" % (b, re.sub(r"\W", "_", tag)))
+        os.makedirs(d, exist_ok=True)
+        src = os.path.join(d, "lib.rs")
+        with open(src, "w") as fh:
+            fh.write(text)
+        p = run_tool(b, src, os.path.join(d, "out"), configs=list(default_configs(b)), timeout=300)
+        tree = read_tree(os.path.join(d, "out")) if p.returncode == 0 else None
+        shutil.rmtree(d, ignore_errors=True)
+        return b, tag, p.returncode, p.stderr[-600:], tree
+    jobs = []
+    for b in BACKENDS:
+        jobs.append((b, "base", LOC_BASE % ""))
+        for tag, add in sorted(LOC_ADDITIONS.items()):
+            for pos, name in (("first", "AaaaLcNew"), ("last", "ZzzzLcNew")):
+                jobs.append((b, "%s@%s" % (tag, pos), LOC_BASE % (add % {"n": name})))
+    res = {(b, tag): (rc, err, tree) for b, tag, rc, err, tree in pmap(one, jobs)}
+    n = 0
+    for b in BACKENDS:
+        rc0, err0, t0 = res[(b, "base")]
+        if rc0 != 0 or not t0:
+            raise MachineryError("backend %s does not accept the locality base program: %s" % (b, err0))
+        agg = [re.compile(x) for x in AGGREGATES[b]]
+        for (bb, tag), (rc, err, t) in sorted(res.items()):
+            if bb != b or tag == "base":
+                continue
+            n += 1
+            if rc != 0:
+                # (an addition one backend cannot express is outside "all accepted modules" only if the addition ITSELF is refused)
+                if "LcNew" in err:
+                    continue
+                rep.violation("C14|locality|unrelated-addition-rejected|%s|%s" % (tag.split("@")[0], b), {"backend": b, "addition": tag, "stderr": err, "program": LOC_BASE % (LOC_ADDITIONS[tag.split("@")[0]] % {"n": "AaaaLcNew" if tag.endswith("first") else "ZzzzLcNew"})},
+                              "adding the unreferenced %s makes %s refuse the module over a type that was accepted before: %s" % (tag, b, err.strip().splitlines()[-1][:200] if err.strip() else rc))
+                continue
+            diff = sorted(k for k in t0 if not any(a.search(k) for a in agg) and t.get(k) != t0[k])
+            if diff:
+                rep.violation("C14|locality|unrelated-addition-changes-files|%s|%s" % (tag.split("@")[0], b), {"backend": b, "addition": tag, "changed_files": diff[:20]},
+                              "adding the unreferenced %s changes the %s files of other types: %s" % (tag, b, diff[:6]))
+    return n
+
+
 def run(tier):
     rep = Reporter("C14", tier, "model_checking")
     build_tool()
@@ -1781,6 +1879,7 @@ def run(tier):
                           "states": len(ex.nodes) - before[0], "edit_applications": ex.edges - before[1],
                           "wall_s": round(time.time() - t0, 1)}
     nested_n = nested_bridge_unit(rep, wd)
+    loc_n = locality_unit(rep, wd)
     cfg_n = scoped_config_unit(rep, wd, tier)
     shutil.rmtree(wd, ignore_errors=True)
     ex.assert_tool_unchanged()
@@ -1804,6 +1903,7 @@ def run(tier):
                   "aggregate_files_seen_changing": {b: sorted(v) for b, v in sorted(ex.agg_seen.items())},
                   "edge_differences_attributed_to_rerun_instability": ex.suppressed,
                   "nested_bridge_unit": {"comparisons": nested_n, "outer_attributes": sorted(NESTED_OUTER_ATTRS)},
+                  "locality_unit": {"comparisons": loc_n, "additions": sorted(LOC_ADDITIONS), "name_positions": ["first", "last"]},
                   "scoped_config_unit": {"fresh_runs": cfg_n, "runs_per_backend_and_config": CFG_RUNS[tier]},
                   "wall_cap_s": WALL_CAP[tier], "cut_short_by_wall_cap": ex.truncated,
                   "states_not_accepted_by_a_backend_after_insert_or_delete": ex.not_accepted[:20]},
@@ -1833,7 +1933,7 @@ def replay(path):
     w = doc["witness"]
     build_tool()
     wd = workdir("C14-replay")
-    if doc["key"].startswith(("C14|nonbridge-parent-module-attribute|", "C14|config-overrides-nondeterministic|")):
+    if doc["key"].startswith(("C14|nonbridge-parent-module-attribute|", "C14|config-overrides-nondeterministic|", "C14|locality|")):
         # fixed-shape units: run them again as a whole, the same key must come back
         class _R:
             keys = []
@@ -1843,6 +1943,7 @@ def replay(path):
                 print("VIOLATION %s: %s" % (key, what))
         r = _R()
         nested_bridge_unit(r, wd)
+        locality_unit(r, wd)
         scoped_config_unit(r, wd, "thorough")
         shutil.rmtree(wd, ignore_errors=True)
         print("still failing" if doc["key"] in r.keys else "no longer failing")
